@@ -477,3 +477,11 @@ class ApiRoutesByVersion:
         :param at_version: The dict mapping a version number to a route.
         """
         self.at_version = {}  # type: typing.Dict[int, ApiRoute]
+
+    @property
+    def _ast_node(self):
+        """
+        Where the name was first used for a route, for "already defined"
+        messages about a later definition with the same name.
+        """
+        return self.at_version[min(self.at_version)]._ast_node
